@@ -274,6 +274,36 @@ Inductive res :=
 | Panic.                  (* the Rust code panics (unwrap of a taken page, assert) *)
 
 (* ------------------------------------------------------------------ read *)
+(* the miss path of read(): backend read, best-effort reclaim, insert, evict from this stripe *)
+Definition read_miss (c : config) (s : state) (off len : N) (o : oracle) : state * list ev * res :=
+  let '(s1, o1, e1, r1) := bcall_step s o false (BRead off len) in
+  if negb (wres_ok r1) then (s1, e1, Err r1) else
+  let buf := fread (file s1) off len in
+  (* best-effort reclaim of committed pages left in the write buffer *)
+  let '(s2, o2, e2) :=
+    if cpb s1 && (max_cache c <? rc_bytes s1 + len + wb_bytes s1) then
+      let '(s', o', e', _, _) := flush_buffered_pages len s1 o1 in (s', o', e')
+    else (s1, o1, []) in
+  let cache_size := rc_bytes s2 in
+  let '(s3, rep) := rc_insert (set_rcb s2 (cache_size + len)) off buf in
+  let '(s4, cache_size') :=
+    match rep with
+    | Some r => (set_rcb s3 (rc_bytes s3 - blen r), rc_bytes s3)
+    | None => (s3, cache_size)
+    end in
+  let s5 :=
+    if max_cache c <? cache_size' + len + wb_bytes s4 then
+      fst (evict_stripe (length (rc s4)) (stripe off) len 0 (picks_for (stripe off) (rpicks o2)) s4)
+    else s4 in
+  (s5, e1 ++ e2, Data buf).
+
+(* copy a committed, buffered page into the read cache when it fits *)
+Definition clean_copy (c : config) (s : state) (off len : N) (d : bytes) : state :=
+  if rc_bytes s + len <=? max_cache c then
+    let '(s', rep) := rc_insert (set_rcb s (rc_bytes s + len)) off d in
+    match rep with Some r => set_rcb s' (rc_bytes s' - blen r) | None => s' end
+  else s.
+
 Definition read_op (c : config) (s : state) (off len : N) (h : hint) (o : oracle) : state * list ev * res :=
   match (match h with HNone => alookup off (wb s) | HClean => None end) with
   | Some None => (s, [], Panic)                                  (* LRUWriteCache::get unwraps a taken page *)
@@ -284,38 +314,45 @@ Definition read_op (c : config) (s : state) (off len : N) (h : hint) (o : oracle
   | None =>
   match (if is_clean h && cpb s then alookup off (wb s) else None) with
   | Some None => (s, [], Panic)
-  | Some (Some d) =>
-      (* copy the committed, buffered page into the read cache when it fits *)
-      let s1 :=
-        if rc_bytes s + len <=? max_cache c then
-          let '(s', rep) := rc_insert (set_rcb s (rc_bytes s + len)) off d in
-          match rep with Some r => set_rcb s' (rc_bytes s' - blen r) | None => s' end
-        else s in
-      (s1, [], Data d)
-  | None =>
-      let '(s1, o1, e1, r1) := bcall_step s o false (BRead off len) in
-      if negb (wres_ok r1) then (s1, e1, Err r1) else
-      let buf := fread (file s1) off len in
-      (* best-effort reclaim of committed pages left in the write buffer *)
-      let '(s2, o2, e2) :=
-        if cpb s1 && (max_cache c <? rc_bytes s1 + len + wb_bytes s1) then
-          let '(s', o', e', _, _) := flush_buffered_pages len s1 o1 in (s', o', e')
-        else (s1, o1, []) in
-      let cache_size := rc_bytes s2 in
-      let '(s3, rep) := rc_insert (set_rcb s2 (cache_size + len)) off buf in
-      let '(s4, cache_size') :=
-        match rep with
-        | Some r => (set_rcb s3 (rc_bytes s3 - blen r), rc_bytes s3)
-        | None => (s3, cache_size)
-        end in
-      let s5 :=
-        if max_cache c <? cache_size' + len + wb_bytes s4 then
-          fst (evict_stripe (length (rc s4)) (stripe off) len 0 (picks_for (stripe off) (rpicks o2)) s4)
-        else s4 in
-      (s5, e1 ++ e2, Data buf)
+  | Some (Some d) => (clean_copy c s off len d, [], Data d)
+  | None => read_miss c s off len o
   end end end.
 
 (* ------------------------------------------------------------------ write / drop of the WritablePage *)
+(* write() of a page that is not in the write buffer; s0 = the state after the read-cache entry `existing` was removed *)
+Definition write_miss (c : config) (s0 : state) (existing : option bytes) (off len : N) (ow : bool) (o : oracle)
+  : state * list ev * res :=
+  let s1 := set_wbb s0 (wb_bytes s0 + len) in
+  let half := max_cache c / 2 in
+  (* rule 1: hold the write buffer at or below half of the budget *)
+  let '(s2, o2, e2, r2) :=
+    if half <? wb_bytes s1 then
+      let excess := wb_bytes s1 - half in
+      let '(sa, oa, ea, ra, fl) := flush_lowest_priority (stripe off) excess Required s1 o in
+      if negb (wres_ok ra) then (sa, oa, ea, ra) else
+      let excess' := excess - fl in
+      if 0 <? excess' then
+        let '(sb, ob, eb, rb) := flush_others (NSTRIPES - 1) (stripe off) 1 excess' sa oa in
+        (sb, ob, ea ++ eb, rb)
+      else (sa, oa, ea, ROk)
+    else (s1, o, [], ROk) in
+  if negb (wres_ok r2) then (s2, e2, Err r2) else
+  (* rules 2 + 3 *)
+  let s3 :=
+    if max_cache c <? wb_bytes s2 + rc_bytes s2 then
+      evict_from_read_cache (wb_bytes s2 + rc_bytes s2 - max_cache c) (rpicks o2) s2
+    else s2 in
+  let '(s4, e4, r4, data) :=
+    match existing with
+    | Some r => (s3, [], ROk, r)
+    | None =>
+        if ow then (s3, [], ROk, zeros len) else
+        let '(sr, _, er, rr) := bcall_step s3 o2 false (BRead off len) in
+        (sr, er, rr, fread (file sr) off len)
+    end in
+  if negb (wres_ok r4) then (s4, e2 ++ e4, Err r4) else
+  (set_wb s4 ((off, None) :: wb s4), e2 ++ e4, Data data).                (* insert; take_value *)
+
 Definition write_op (c : config) (s : state) (off len : N) (ow : bool) (o : oracle) : state * list ev * res :=
   if negb (off mod page_size c =? 0) then (s, [], Panic) else
   let existing := alookup off (rc s) in
@@ -326,37 +363,7 @@ Definition write_op (c : config) (s : state) (off len : N) (ow : bool) (o : orac
   match alookup off (wb s0) with
   | Some None => (s0, [], Panic)                                           (* take_value of a taken page *)
   | Some (Some d) => (set_wb s0 (aset off None (wb s0)), [], Data d)      (* take_value *)
-  | None =>
-      let s1 := set_wbb s0 (wb_bytes s0 + len) in
-      let half := max_cache c / 2 in
-      (* rule 1: hold the write buffer at or below half of the budget *)
-      let '(s2, o2, e2, r2) :=
-        if half <? wb_bytes s1 then
-          let excess := wb_bytes s1 - half in
-          let '(sa, oa, ea, ra, fl) := flush_lowest_priority (stripe off) excess Required s1 o in
-          if negb (wres_ok ra) then (sa, oa, ea, ra) else
-          let excess' := excess - fl in
-          if 0 <? excess' then
-            let '(sb, ob, eb, rb) := flush_others (NSTRIPES - 1) (stripe off) 1 excess' sa oa in
-            (sb, ob, ea ++ eb, rb)
-          else (sa, oa, ea, ROk)
-        else (s1, o, [], ROk) in
-      if negb (wres_ok r2) then (s2, e2, Err r2) else
-      (* rules 2 + 3 *)
-      let s3 :=
-        if max_cache c <? wb_bytes s2 + rc_bytes s2 then
-          evict_from_read_cache (wb_bytes s2 + rc_bytes s2 - max_cache c) (rpicks o2) s2
-        else s2 in
-      let '(s4, e4, r4, data) :=
-        match existing with
-        | Some r => (s3, [], ROk, r)
-        | None =>
-            if ow then (s3, [], ROk, zeros len) else
-            let '(sr, _, er, rr) := bcall_step s3 o2 false (BRead off len) in
-            (sr, er, rr, fread (file sr) off len)
-        end in
-      if negb (wres_ok r4) then (s4, e2 ++ e4, Err r4) else
-      (set_wb s4 ((off, None) :: wb s4), e2 ++ e4, Data data)                (* insert; take_value *)
+  | None => write_miss c s0 existing off len ow o
   end.
 
 (* Drop for WritablePage: return_value(offset, data) *)
